@@ -142,13 +142,14 @@ def _run(case, w):
     coro = case.get('coro') and aio
     log = []        # (kind, args tuple)
     rets = {}       # tag -> return value
+    faults = {}     # tag -> kind of exception the handler raises
 
     def result(args):
         # the tag is the first event argument
         for a in args:
             if isinstance(a, dict) and set(a) == {'__tag'}:
-                r_ = rets[a['__tag']]
-                if isinstance(r_, str) and r_.startswith('__raise'):
+                r_ = faults.get(a['__tag'])
+                if r_ is not None:
                     raise {'__raise_type__': TypeError,
                            '__raise_key__': KeyError}.get(
                                r_, RuntimeError)('application handler fault')
@@ -240,7 +241,8 @@ def _run(case, w):
             log.clear()
             w.recv_all()
             tag += 1
-            rets[tag] = op.get('exc', '__raise__')
+            faults[tag] = op.get('exc', '__raise__')
+            rets[tag] = None
             t1 = tag
             w.send(c['t'], wire.EVENT, c['ns'], op['id'],
                    ['a', {'__tag': tag}] + ([b'bin', {'k': b'x'}]
